@@ -17,15 +17,29 @@ Section Spec.
   Definition uniq_ids (root : pkg) : Prop :=
     forall p q, In p (nodes root) -> In q (nodes root) -> pid p = pid q -> p = q.
 
+  (* r_src identifies the checkout step: package nodes that share a checkout step
+     (equal r_src, both with an own checkout) repeat the same attributes of it.
+     In a real project the checkout step is one object per workspace path and
+     these attributes are functions of that object. *)
+  Definition src_consistent (root : pkg) : Prop :=
+    forall p q, In p (nodes root) -> In q (nodes root) ->
+      has_src (items_of p) = true -> has_src (items_of q) = true ->
+      r_src (recipe_of p) = r_src (recipe_of q) ->
+      r_srcid (recipe_of p) = r_srcid (recipe_of q) /\
+      r_haslive (recipe_of p) = r_haslive (recipe_of q) /\
+      r_live (recipe_of p) = r_live (recipe_of q) /\
+      r_livecalc (recipe_of p) = r_livecalc (recipe_of q).
+
   (* a live build-id determines the content of the checkout *)
   Definition live_consistent (root : pkg) : Prop :=
     forall p q l, In p (nodes root) -> In q (nodes root) ->
       r_livecalc (recipe_of q) = Some l -> r_live (recipe_of p) = Some l ->
       r_srcid (recipe_of q) = r_srcid (recipe_of p).
 
-  (* ---- Build-Id under an arbitrary belief about the source build-ids *)
+  (* ---- Build-Id under an arbitrary belief about the source build-ids (a belief
+     is about checkout steps: it is keyed by r_src) *)
   Fixpoint tbid_sa (sa : label -> bytes) (p : pkg) : bytes :=
-    match p with Pkg r its => bidf r (if has_src its then Some (sa (r_id r)) else None) (tbid_sa_items sa its) end
+    match p with Pkg r its => bidf r (if has_src its then Some (sa (r_src r)) else None) (tbid_sa_items sa its) end
   with tbid_sa_items (sa : label -> bytes) (its : items) : list bytes :=
     match its with
     | INil => []
@@ -35,7 +49,7 @@ Section Spec.
 
   (* the belief is the truth on the sources below p *)
   Definition right_on (sa : label -> bytes) (p : pkg) : Prop :=
-    forall q, In q (nodes p) -> has_src (items_of q) = true -> sa (pid q) = r_srcid (recipe_of q).
+    forall q, In q (nodes p) -> has_src (items_of q) = true -> sa (r_src (recipe_of q)) = r_srcid (recipe_of q).
 
   (* ---- the archive *)
   Definition wellformed (a : artifact) : Prop := a_audit a = Some (hashW (a_content a)).
